@@ -57,6 +57,13 @@ classschema('ADMMArguments', 'fast_ticc.containers.arguments.ADMMArguments',
                  sparsity_weight='real', absolute_tolerance='real', relative_tolerance='real',
                  max_iterations='int', verbose='bool'))
 
+_AA = ['window_size', 'num_data_series', 'rho', 'rho_update', 'sparsity_weight', 'absolute_tolerance', 'relative_tolerance',
+       'max_iterations', 'verbose']
+for _m in ('shallow_copy', 'deep_copy'):
+    contract('fast_ticc.containers.arguments.ADMMArguments.' + _m, props=['C02', 'C19'], params=dict(self='obj:ADMMArguments'),
+             returns='obj:ADMMArguments',
+             ensures=["fresh(result)"] + ["result.%s == self.%s" % (f, f) for f in _AA] + ["unchanged(self)"])
+
 _EPS_ABS = "(sqrt(x.shape[0]) * args.absolute_tolerance + 0.0001)"
 _SAME_LEN = ["u.shape[0] == x.shape[0]", "x.shape[0] == z.shape[0]"]
 
